@@ -85,6 +85,11 @@ class Opaque:
     name: str
 
 
+class PyStub:
+    """A Python object supplied by a rule to stand for a runtime object (a context variable, a dataclass field ...): its
+    attributes and methods are used as they are."""
+
+
 @dataclass(frozen=True)
 class IInfo:
     bits: int
@@ -333,7 +338,7 @@ _TYPE_NAMES = {'int': int, 'tuple': tuple, 'list': list, 'str': str, 'bool': boo
 
 
 def _concrete(v: Any) -> bool:
-    if isinstance(v, (AxArr, Flat, Cat, DiagOf, Obj, Func, Ref, ClassRef, _Unk, Opaque, Promoted, Built, Sym, IInfo)):
+    if isinstance(v, (AxArr, Flat, Cat, DiagOf, Obj, Func, Ref, ClassRef, _Unk, Opaque, Promoted, Built, Sym, IInfo, PyStub)):
         return False
     if isinstance(v, (tuple, list, set, frozenset)):
         return all(_concrete(x) for x in v)
@@ -618,6 +623,24 @@ class Interp:
             return acc
         if path in ('jnp.array', 'jnp.asarray') and len(args) >= 1 and isinstance(args[0], (bool, int, float)) :
             return args[0]
+        if path == 'dataclasses.fields' and len(args) == 1 and isinstance(args[0], (ClassRef, Obj)):
+            k_ = args[0].cls
+            names_ = self._record_fields(k_) or [f.name for f in self.table.fields(k_)]
+            out_ = []
+            for n_ in names_:
+                st = PyStub()
+                st.name = n_
+                out_.append(st)
+            return tuple(out_)
+        if path == 'dataclasses.replace' and len(args) == 1 and isinstance(args[0], Obj):
+            names_ = args[0].attrs.get('__record_fields__') or tuple(k_ for k_ in args[0].attrs)
+            if any(k_ not in names_ for k_ in kwargs):
+                raise Raised('TypeError')
+            new_ = Obj(args[0].cls, dict(args[0].attrs))
+            new_.attrs.update(kwargs)
+            return new_
+        if path == 'dataclasses.asdict' and len(args) == 1 and isinstance(args[0], Obj):
+            return {k_: v_ for k_, v_ in args[0].attrs.items() if k_ != '__record_fields__'}
         if path in ('typing.cast', 'typing_extensions.cast') and len(args) == 2:
             return args[1]
         if path == 'operator.index' and len(args) == 1:
@@ -721,6 +744,10 @@ class Interp:
             return getattr(v, name)
         if isinstance(v, IInfo) and name in ('max', 'min', 'bits'):
             return getattr(v, name)
+        if isinstance(v, PyStub):
+            if hasattr(v, name):
+                return getattr(v, name)
+            raise Raised('AttributeError')
         if v is str and name in ('maketrans', 'join'):
             return getattr(str, name)
         return UNK
